@@ -424,6 +424,10 @@ package go_clipper2
 //@ func PointInPolygon variant complete
 //@   props C14 C04
 //@   tier B
+//@   assert after i#4 [the-edge-into-a-level-vertex-that-is-not-reported-does-not-contain-the-point] !onSeg(pt, prev, curr) && curr.X != pt.X && curr.Y == pt.Y
+//@   assert after isAbove#1 [a-crossing-edge-that-is-not-reported-does-not-contain-the-point] !onSeg(pt, prev, curr)
+//@   assert after d#2 [the-closing-edge-test-is-the-exact-collinearity-test-1] i == 0 && (d == 0) == (cross(polygon[lenP-1], polygon[0], pt) == 0)
+//@   assert after d#3 [the-closing-edge-test-is-the-exact-collinearity-test-2] i > 0 && (d == 0) == (cross(polygon[i-1], polygon[i], pt) == 0)
 //@   loop 0 invariant [leading-vertices-on-the-level] forall(k, 0, start, polygon[k].Y == pt.Y)
 //@   loop 1 invariant [edges-passed-so-far-do-not-contain-the-point] ((0 <= anyEdge() && anyEdge() < lenP && passedEdge(anyEdge(), start, i, end, lenP)) ==> !onSeg(pt, polygon[prevIdx(anyEdge(), lenP)], polygon[anyEdge()]))
 //@   loop 1.0 invariant [a-level-vertex-before-the-scan-position-is-not-the-point] polygon[prevIdx(ite(i == lenP, 0, i), lenP)].Y == pt.Y ==> polygon[prevIdx(ite(i == lenP, 0, i), lenP)].X != pt.X
